@@ -1,7 +1,7 @@
 (* List / Python-index facts used by the Repeated* proofs (self-contained copies, so that these proofs do not
    depend on files other contributors are editing). *)
 From AB Require Import Prelude PySeq.
-From Coq Require Import ZifyBool.
+From Coq Require Import ZifyBool FinFun.
 
 Lemma zlen_nonneg {A} (l : list A) : 0 <= zlen l.
 Proof. unfold zlen. lia. Qed.
@@ -135,3 +135,31 @@ Proof.
   now replace ((0 <=? p) && (p <? zlen l)) with true by lia.
 Qed.
 
+Lemma range_list_bounds n sl a b k :
+  0 <= n -> slice_indices n sl = Ok (a, b, k) ->
+  Forall (fun p => 0 <= p < n) (range_list (mkrng a b k)).
+Proof.
+  intros Hn H. destruct (slice_indices_range _ _ _ _ _ Hn H) as (Hk & Hpos & Hneg).
+  unfold range_list, range_len. cbn [r_start r_stop r_step].
+  apply Forall_forall. intros p Hp. apply in_map_iff in Hp. destruct Hp as (i & <- & Hi).
+  apply in_seq in Hi.
+  destruct (0 <? k) eqn:Ek.
+  - destruct (Hpos ltac:(lia)) as (Ha & Hb).
+    destruct (a <? b) eqn:Eab; [|cbn in Hi; lia].
+    assert (H1 : k * ((b - a - 1) / k) <= b - a - 1) by (apply Z.mul_div_le; lia).
+    assert (H0 : 0 <= (b - a - 1) / k) by (apply Z.div_pos; lia).
+    assert (Hi' : Z.of_nat i <= (b - a - 1) / k) by lia.
+    nia.
+  - destruct (Hneg ltac:(lia)) as (Ha & Hb).
+    destruct (b <? a) eqn:Eab; [|cbn in Hi; lia].
+    assert (H1 : (- k) * ((a - b - 1) / (- k)) <= a - b - 1) by (apply Z.mul_div_le; lia).
+    assert (H0 : 0 <= (a - b - 1) / (- k)) by (apply Z.div_pos; lia).
+    assert (Hi' : Z.of_nat i <= (a - b - 1) / (- k)) by lia.
+    nia.
+Qed.
+
+Lemma range_list_nodup r : r_step r <> 0 -> NoDup (range_list r).
+Proof.
+  intros Hs. unfold range_list. apply Injective_map_NoDup; [|apply seq_NoDup].
+  intros x y H. nia.
+Qed.
